@@ -1009,6 +1009,13 @@ VmTrap vm_core_execute(VmState *vm) {
              * after the CALL in the caller) before we pop the frame */
             uint32_t ret_ip = frame->return_ip;
 
+            /* The frame owns the reference to its closure that OP_CALL_INDIRECT /
+             * OP_CLOSURE_CALL popped off the stack: give it back now */
+            if (frame->closure) {
+                vm_release(&vm->heap, val_closure(frame->closure));
+                frame->closure = NULL;
+            }
+
             vm->frame_count--;
 
             if (vm->frame_count == 0) {
@@ -1829,6 +1836,10 @@ VmTrap vm_core_execute(VmState *vm) {
         while (vm->stack_size > frame->stack_base) {
             NanoValue v = stack_pop(vm);
             vm_release(&vm->heap, v);
+        }
+        if (frame->closure) {
+            vm_release(&vm->heap, val_closure(frame->closure));
+            frame->closure = NULL;
         }
         vm->frame_count--;
         if (vm->frame_count == 0) {
